@@ -157,6 +157,16 @@ def random_model(rng, family, nbodies, springs=True, moving=True, layout="random
             # every third spring in compliance form (the same conservative force, carried by a multiplier la_c); decided from
             # the digits of k so that the random stream of the generator - and with it every other model - stays as it was
             spr[-1]["compliance"] = int(k * 1e6) % 3 == 0
+    rb_idx = [i for i, b in enumerate(bodies) if b["kind"] == "rb"]
+    if springs and rb_idx and int(bodies[rb_idx[0]]["m"] * 1e6) % 4 == 0:
+        # a pre-stressed spring between two points of ONE rigid body: an internal force pair that cancels identically (the
+        # points keep their distance), so motion and energy balance are the ones without it. Drawn from a private generator
+        # seeded by the digits of the body's mass so that the stream of the main generator stays as it was.
+        r2 = np.random.default_rng(int(bodies[rb_idx[0]]["m"] * 1e9))
+        i = rb_idx[int(r2.integers(len(rb_idx)))]
+        Ba, Bb = r2.normal(size=3) * 0.3, r2.normal(size=3) * 0.3
+        spr.append({"a": i, "b": i, "Ba": Ba, "Bb": Bb, "k": float(bodies[i]["m"] * r2.uniform(4.0, 12.0) ** 2),
+                    "l_ref": float(0.4 * np.linalg.norm(Bb - Ba)), "compliance": False, "internal": True})
     model = {"family": family, "layout": layout, "g": g, "world": world, "bodies": bodies, "joints": joints, "springs": spr}
     return model, poses, vels
 
